@@ -71,3 +71,22 @@ W_MIX(ui, unsigned int, us, unsigned short)
 	void w_store_seq_cst_fence__##T(TY *p, TY v) { uatomic_store(p, v, CMM_SEQ_CST_FENCE); }
 
 W_TYPES(W_MO)
+
+/* macro-argument hygiene: a compound operand is evaluated as a whole, in its own type, before any conversion the macro
+ * applies (an unparenthesised use of the parameter inside a cast or a unary operator would bind to its first sub-expression) */
+#define W_CMPD(T, TY) \
+	void w_set_cmpd__##T(TY *p, int a, int b) { uatomic_set(p, a < b); } \
+	TY w_xchg_cmpd__##T(TY *p, int a, int b) { return uatomic_xchg(p, a < b); } \
+	TY w_cmpxchg_cmpd__##T(TY *p, int a, int b) { return uatomic_cmpxchg(p, a < b, b < a); } \
+	TY w_add_return_cmpd__##T(TY *p, int a, int b) { return uatomic_add_return(p, a < b); } \
+	TY w_sub_return_cmpd__##T(TY *p, int a, int b) { return uatomic_sub_return(p, a < b); } \
+	void w_add_cmpd__##T(TY *p, int a, int b) { uatomic_add(p, a < b); } \
+	void w_sub_cmpd__##T(TY *p, int a, int b) { uatomic_sub(p, a < b); } \
+	void w_and_cmpd__##T(TY *p, int a, int b) { uatomic_and(p, a < b); } \
+	void w_or_cmpd__##T(TY *p, int a, int b) { uatomic_or(p, a < b); }
+
+W_CMPD(uc, unsigned char)
+W_CMPD(us, unsigned short)
+W_CMPD(ui, unsigned int)
+W_CMPD(sl, long)
+W_CMPD(ul, unsigned long)
